@@ -34,9 +34,9 @@ static inline _Bool sp_attacked(const sp_pc *b, uint32_t sq, uint32_t by)
   int f = sp_file(sq), r = sp_rank(sq);
   int pr = by == 0 ? r - 1 : r + 1;              /* a white pawn attacks upwards, so it stands one rank below */
   if (sp_at(b, f - 1, pr) == sp_piece(by, 1) || sp_at(b, f + 1, pr) == sp_piece(by, 1)) return 1;
-  const int ndf[8] = {1, 2, 2, 1, -1, -2, -2, -1}, ndr[8] = {2, 1, -1, -2, -2, -1, 1, 2};
+  static const int ndf[8] = {1, 2, 2, 1, -1, -2, -2, -1}, ndr[8] = {2, 1, -1, -2, -2, -1, 1, 2};
   for (int i = 0; i < 8; i++) if (sp_at(b, f + ndf[i], r + ndr[i]) == sp_piece(by, 2)) return 1;
-  const int kdf[8] = {1, 1, 1, 0, -1, -1, -1, 0}, kdr[8] = {1, 0, -1, -1, -1, 0, 1, 1};
+  static const int kdf[8] = {1, 1, 1, 0, -1, -1, -1, 0}, kdr[8] = {1, 0, -1, -1, -1, 0, 1, 1};
   for (int i = 0; i < 8; i++) if (sp_at(b, f + kdf[i], r + kdr[i]) == sp_piece(by, 6)) return 1;
   uint64_t occ = sp_occ(b);
   if (spec_bishop_walk(sq, occ) & sp_squares_of(b, sp_piece(by, 3), sp_piece(by, 5))) return 1;
